@@ -225,7 +225,10 @@ class _V:
         bad = run.hooks.get(("errret", cid))
         if bad is not None:
             return bad(run)
-        return run.tok("err%d.%d" % (cid, n), lambda: ProgError("factory error of #%d" % cid))
+        # every third factory hands out an exception that derives from BaseException only (any exception object a
+        # factory returns is raised as it is)
+        kind = ProgBaseError if cid % 3 == 0 else ProgError
+        return run.tok("err%d.%d" % (cid, n), lambda: kind("factory error of #%d" % cid))
 
     # -- bodies ------------------------------------------------------------
     def body(self, fname, spec, loc):
